@@ -9,6 +9,7 @@ import (
 
 var c20PoolText = []string{
 	`1e-400`, `2e-400`, `4e-324`, `5e-324`, `1e400`, `1e-6000`, `[1e-400]`, `{"a":2e-400}`, `0.1e-399`,
+	`9223372036854775807`, `9223372036854775808`, `-9223372036854775808`, `9999999999999999999`, `-8446744073709551617`, `18446744073709551615`, `18446744073709551616`, `-1.0`, `[9223372036854775808]`, `{"a":-9223372036854775808}`,
 	`null`, `true`, `false`, `0`, `1`, `-1`, `1.0`, `1e0`, `10e-1`, `100`, `1e2`, `0.1`, `0.10`, `-0`, `0.0`, `2`, `9007199254740993`, `9007199254740992`,
 	`""`, `"0"`, `"1"`, `"true"`, `"false"`, `"null"`, `"a"`, `"A"`, `"é"`, `"é"`, `" "`, `"[]"`, `"{}"`,
 	`[]`, `[null]`, `[[]]`, `[0]`, `[1]`, `[1.0]`, `["1"]`, `[1,2]`, `[2,1]`, `[1,2,3]`, `[1,[2]]`, `[1,[2.0]]`, `[[1],2]`, `[true]`, `[false]`, `[""]`, `[{}]`, `[{"a":1}]`,
@@ -320,7 +321,7 @@ func perturb(r *gen.R, v ref.V) ref.V {
 func init() {
 	Register(&Property{
 		ID:            "C20",
-		Rule:          "a 64-value pool (nested containers, numerically equal numbers in different spellings inside containers, reordered members, near misses, 1 vs \"1\", true vs \"true\", 0 vs false, [] vs {} vs \"\" vs null): all ordered pairs through ==, !=, contains, filter equality and container wrappers via literals and via document fields, checked against deep type-strict model equality plus reflexivity/symmetry/negation; all triples (thorough; seeded sample in quick) for transitivity of the library's own ==; every value x value through !, &&, ||, filter predicates against the single false-like set with && / || returning an operand unchanged; seeded random nested values with one controlled perturbation (respelling/reordering keeps equality, one changed leaf breaks it); matrix stream: whole comparison matrices computed inside ONE evaluation (operands rebound per element through let / current node, so every comparison node is evaluated many times with different operand values and types), compared with the model; non-trivial = each judged pair/value/document",
+		Rule:          "a 74-value pool (incl. 19/20-digit integers around 2^63 and 2^64 and pairs differing by exactly 2^64) (nested containers, numerically equal numbers in different spellings inside containers, reordered members, near misses, 1 vs \"1\", true vs \"true\", 0 vs false, [] vs {} vs \"\" vs null): all ordered pairs through ==, !=, contains, filter equality and container wrappers via literals and via document fields, checked against deep type-strict model equality plus reflexivity/symmetry/negation; all triples (thorough; seeded sample in quick) for transitivity of the library's own ==; every value x value through !, &&, ||, filter predicates against the single false-like set with && / || returning an operand unchanged; seeded random nested values with one controlled perturbation (respelling/reordering keeps equality, one changed leaf breaks it); matrix stream: whole comparison matrices computed inside ONE evaluation (operands rebound per element through let / current node, so every comparison node is evaluated many times with different operand values and types), compared with the model; non-trivial = each judged pair/value/document",
 		MinNontrivial: 3000,
 		Streams: []Stream{
 			{Name: "pairs", Setup: c20Setup, N: func(c *Ctx) int { c20Setup(c); return len(c20Pool) * len(c20Pool) }, Run: c20Pairs, Exhaustive: true},
